@@ -235,26 +235,30 @@ func c03TwoStores(cfg *world.Config, hist []world.Op, acc *pairAcc, st *c03Stats
 	if _, err := t.MakeRoot(ctx); err != nil {
 		return
 	}
-	// a second tree with the same contents over a second store (different prefix), same cache
-	st2 := env.NewStore("mem://s2")
-	t2, err := mast.NewRoot(cfg.CreateOptions()).LoadMast(ctx, w.RemoteConfig(st2, true))
-	if err != nil {
-		return
-	}
-	for _, k := range sortedKeys(c.M) {
-		if c.M[k] >= 0 {
-			t2.Insert(ctx, cfg.Key(k), cfg.Vals[c.M[k]])
+	// a second tree with the same contents over a second store (different prefix), same cache;
+	// the prefixes also differ only by a trailing or doubled slash or a "./" (distinct strings = distinct stores)
+	for _, prefix2 := range []string{"mem://s2", w.Store.Prefix + "/", "mem:///s1", "./" + w.Store.Prefix} {
+		st2 := env.NewStore(prefix2)
+		t2, err := mast.NewRoot(cfg.CreateOptions()).LoadMast(ctx, w.RemoteConfig(st2, true))
+		if err != nil {
+			return
 		}
-	}
-	atomic.AddInt64(&st.evals, 1)
-	var root2 *mast.Root
-	r := guardRes(func() (err error) { root2, err = t2.MakeRoot(ctx); return })
-	if r.Err != nil || r.Panic != nil {
-		acc.add(cfg, "C03", []explore.Finding{{Sig: "C03|two-stores|MakeRoot-failed|" + resClass(r), What: "MakeRoot into a second store sharing the cache failed", Detail: r.String()}}, cfg.DescribeHist(hist))
-		return
-	}
-	if err := reachCheck(cfg, st2, root2); err != nil {
-		acc.add(cfg, "C03", []explore.Finding{{Sig: "C03|two-stores|node-skipped-because-cached-for-another-store", What: "a node was not written to the second store because the shared cache had seen it in the first", Detail: err.Error()}}, append(cfg.DescribeHist(hist), "persist; same contents built over a second store (other prefix) sharing the cache; persist"))
+		for _, k := range sortedKeys(c.M) {
+			if c.M[k] >= 0 {
+				t2.Insert(ctx, cfg.Key(k), cfg.Vals[c.M[k]])
+			}
+		}
+		atomic.AddInt64(&st.evals, 1)
+		var root2 *mast.Root
+		r := guardRes(func() (err error) { root2, err = t2.MakeRoot(ctx); return })
+		if r.Err != nil || r.Panic != nil {
+			acc.add(cfg, "C03", []explore.Finding{{Sig: "C03|two-stores|MakeRoot-failed|" + resClass(r), What: "MakeRoot into a second store sharing the cache failed", Detail: r.String()}}, cfg.DescribeHist(hist))
+			return
+		}
+		if err := reachCheck(cfg, st2, root2); err != nil {
+			acc.add(cfg, "C03", []explore.Finding{{Sig: "C03|two-stores|node-skipped-because-cached-for-another-store", What: "a node was not written to the second store because the shared cache had seen it in the first", Detail: fmt.Sprintf("store prefixes %q and %q: %v", w.Store.Prefix, prefix2, err)}}, append(cfg.DescribeHist(hist), "persist; same contents built over a second store (other prefix) sharing the cache; persist"))
+			return
+		}
 	}
 }
 
